@@ -393,6 +393,18 @@ def roundtrip_check(op, root, cap, atypes, requested_graph, log_msgs):
         with open(os.path.join(tdir, os.path.basename(out)), "w") as fh:
             fh.write(f"[ moleculetype ]\n{name} 1\n[ atoms ]\n1 {exp_first_type(cap)} 1 DEC DC 1 0.0 1.0\n")
         os.chdir(tdir)
+    elif op.get("read_indirect"):
+        # system.top -> molecules/all.itp -> <generated file> (a copy, next to all.itp, included by its bare name);
+        # a different file of the same name lies next to the topology itself
+        base = os.path.basename(out)
+        os.makedirs(os.path.join(tdir, "molecules"), exist_ok=True)
+        shutil.copy(out, os.path.join(tdir, "molecules", base))
+        with open(os.path.join(tdir, "molecules", "all.itp"), "w") as fh:
+            fh.write(f'#include "{base}"\n')
+        with open(os.path.join(tdir, base), "w") as fh:
+            fh.write(f"[ moleculetype ]\n{name} 1\n[ atoms ]\n1 {exp_first_type(cap)} 1 DEC DC 1 0.0 1.0\n")
+        top += ['#include "molecules/all.itp"', "[ system ]", "rt", "[ molecules ]", f"{name} 1"]
+        tp = os.path.join(tdir, "rt.top")
     else:
         top += [f'#include "{os.path.abspath(out)}"', "[ system ]", "rt", "[ molecules ]", f"{name} 1"]
         tp = os.path.join(tdir, "rt.top")
@@ -681,6 +693,29 @@ def _dispatch(op, root, opdir, cap):
             return _dispatch(dict(op, exdev=False), root, opdir, cap)
         finally:
             os.rename = real_rename
+    if op.get("move_fails"):
+        # fault: the move that publishes the finished temporary file fails once with a transient OSError (ESTALE on a
+        # network file system).  Nothing was published: the call must fail, or - if it retries - end with the file
+        import errno
+        import vermouth.file_writer as fw
+        real_shutil = fw.shutil
+        state = {"left": 1}
+
+        class _Sh:
+            def __getattr__(self, name):
+                return getattr(real_shutil, name)
+
+            def move(self, src, dst, *a, **k):
+                if state["left"] > 0 and str(src).startswith(os.path.join(root, "tmp")):
+                    state["left"] -= 1
+                    raise OSError(errno.ESTALE, "Stale file handle (injected)")
+                return real_shutil.move(src, dst, *a, **k)
+
+        fw.shutil = _Sh()
+        try:
+            return _dispatch(dict(op, move_fails=False), root, opdir, cap)
+        finally:
+            fw.shutil = real_shutil
     if op["op"] == "gen_params":
         op_gen_params(op, root, opdir, cap)
     elif op["op"] == "gen_seq":
